@@ -32,7 +32,7 @@ RULE = (
     "a query and the observation >= 11 other cache-keyed queries were planned, or a failure / rewrite / discard happened; distinct by (query, kind of disturbance)"
 )
 ASSUMPTIONS = ["fresh-interpreter references are computed once per query and cached for the run", "disk-shuffle store tokens are excluded from plan-name comparison (names of expressions only)"]
-BUDGET_S = {"quick": 200, "thorough": 3000}
+BUDGET_S = {"quick": 200, "thorough": 900}
 SYSTEMATIC_BUDGET_FRACTION = 1.0
 NO_FRESH_CONFIRM = True
 MINIMISE_EVALS = {"quick": 0, "thorough": 0}
